@@ -1,4 +1,5 @@
 import FsnVerif.Model.Kqueue
+import FsnVerif.Proofs.KqFullEvents
 /-!
 # C18 — kqueue: a watched directory reports each new entry once (model side)
 
@@ -110,5 +111,50 @@ theorem remove_then_create (seen : List Path) (d : Path) (e : Path) :
   have : ((seen.filter (· != child d e)).contains (child d e)) = false := by
     simp [List.contains_eq_mem, List.mem_filter]
   simp [this, dirChange]
+
+
+/-!
+## The same clauses over the FULL model of the backend (`Model/KqFull`)
+
+`sendCreateIfNew` is the only place of the backend that synthesises a Create (from `dirChange` for every
+entry of a changed directory, and after a Remove for a name that exists again). Whatever the
+environment answers (every tape):
+-/
+namespace Full
+open KqF
+
+/-- a Create is delivered for an entry **exactly when it has not been seen**, nothing else is delivered,
+the seen set only grows, and a call that succeeds leaves the entry seen -/
+theorem create_iff_unseen (path : Path) (k : Kind) (w : W) (hc : w.s.closed = false) (hp : clean path = path) :
+    (sendCreateIfNew path k w).2.events = w.events ++ (if w.s.seen.contains path then [] else [⟨path, Create⟩]) ∧
+    (sendCreateIfNew path k w).2.errors = w.errors ∧
+    (∀ p, p ∈ w.s.seen → p ∈ (sendCreateIfNew path k w).2.s.seen) ∧
+    ((sendCreateIfNew path k w).1 = none → path ∈ (sendCreateIfNew path k w).2.s.seen) :=
+  let h := sendCreateIfNew_spec path k w hc hp
+  ⟨h.1, h.2.1, h.2.2.2.1, h.2.2.2.2⟩
+
+/-- **Create exactly once**: after a successful call for an entry, another one for the same entry delivers nothing -/
+theorem create_once_full (path : Path) (k k' : Kind) (w : W) (hc : w.s.closed = false) (hp : clean path = path)
+    (h1 : (sendCreateIfNew path k w).1 = none) (tape' : List Ans) :
+    (sendCreateIfNew path k' { (sendCreateIfNew path k w).2 with tape := tape' }).2.events = (sendCreateIfNew path k w).2.events :=
+  KqF.create_once path k k' w hc hp h1 tape'
+
+/-- **a name that is removed and created again is reported again** -/
+theorem remove_then_create_full (path : Path) (k : Kind) (w : W) (hc : w.s.closed = false) (hp : clean path = path) :
+    (sendCreateIfNew path k (markSeen path false w).2).2.events = w.events ++ [⟨path, Create⟩] :=
+  KqF.remove_then_create path k w hc hp
+
+/-- **never for entries that existed when the watch was added**: `Add` delivers nothing at all -/
+theorem add_reports_nothing (name : Path) (w : W) : (KqF.add name w).2.events = w.events ∧ (KqF.add name w).2.errors = w.errors :=
+  add_silent name w
+
+/-- an internal watch never follows a link: it is registered under the (clean) name of the directory entry -/
+theorem internal_watch_name (fuel : Nat) (path : Path) (k : Kind) (w : W) (r : Path)
+    (h : (internalWatch (addWatch fuel) path k w).1 = .ok r) : r = [] ∨ r = clean path := by
+  have := ret_internalWatch fuel path k w
+  rw [h] at this
+  exact this
+
+end Full
 
 end C18
